@@ -250,6 +250,14 @@ def judge(case, records, app):
             P(tagin, t, "llm-call-before-last-input-rail", "")
         if case["kinds"][t] == "llm" and not llms:
             P(tagin, t, "no-generation-for-accepted-message", reply)
+        for e in log:
+            if e["kind"] == "dialog_action":
+                stats["dialog_action_params_checked"] = stats.get("dialog_action_params_checked", 0) + 1
+                if e.get("q") != mt["text"] or e.get("text") != mt["text"]:
+                    # a later stage: it must see the (possibly rewritten) text of THIS turn, through the context and through a
+                    # `$user_message` parameter written in the flow alike
+                    P(tagin, t, "dialog-action-shown-another-text", {"parameter": e.get("q"), "context": e.get("text"), "current_text": mt["text"]})
+                    break
         if llms and mt["text"] == rec["text"]:
             # (a reference directly in front of the turn's unique token: an expansion of other references may re-insert
             #  earlier texts, but never this pair)
